@@ -267,7 +267,7 @@ theorem di_step (cfg : Cfg) (s s' : State) (e : Event) (h : DI s) (hs : step cfg
       split at hs
       · rename_i hg
         injection hs with hs; subst hs
-        have hbnone : s.batches b = none := by simpa using hg.2.2.2
+        have hbnone : s.batches b = none := by simpa using hg.2.2.2.1
         have hcall := hg.1
         constructor
         · exact h.lockClosed
